@@ -40,3 +40,26 @@ func smoke(tier, replay string) int {
 	}
 	return 0
 }
+
+func init() { register("DEBUGCONV", debugConv) }
+
+// Development aid: DEBUG_TYPE=asa DEBUG_SEED=n ./check DEBUGCONV quick
+func debugConv(tier, replay string) int {
+	env := run.Setup("DEBUGCONV", tier)
+	defer env.Cleanup()
+	env.BuildRepo(false)
+	var seed int64
+	fmt.Sscanf(os.Getenv("DEBUG_SEED"), "%d", &seed)
+	g := genPair(os.Getenv("DEBUG_TYPE"), seed)
+	o := runConv(env, g, true)
+	fmt.Printf("EDITS %v\n--- DEVICE\n%s\n--- TARGET\n%s\n--- SCRIPT\n%s\n", g.Edits, g.Device, g.Files["router"], o.Script)
+	fmt.Printf("--- conv=%v exec=%v frame=%v anomalies=%v inconclusive=%q\n", o.Conv, o.Exec, o.Frame, o.Anomalies, o.Inconclusive)
+	if n := len(o.Prefixes); n > 0 {
+		fmt.Printf("--- FINAL MODEL\n%s\n", o.Prefixes[n-1])
+		pc := g.pair()
+		pc.Device = o.Prefixes[n-1]
+		r := runPair(env, pc, false)
+		fmt.Printf("--- SECOND COMPARE exit=%d\n%s\n%s\n", r.Exit, r.Stdout, r.Stderr)
+	}
+	return 0
+}
